@@ -25,6 +25,11 @@ def Op.abs : Op α → SOp α
   | .union d i js => .union d i js
   | .inter d i js => .inter d i js
   | .diff d i js => .diff d i js
+  | .anyMatch i p => .anyMatch i p
+  | .allMatch i p => .allMatch i p
+  | .firstMatch i p => .firstMatch i p
+  | .select d i p => .select d i p
+  | .partitionM d e i p => .partitionM d e i p
 
 /-- every implementation a history creates with `new` has a lawful callback -/
 def Op.Lawful : Op α → Prop
@@ -43,6 +48,10 @@ inductive ObsRel : Obs α → SObs α → Prop
   | bool (b : Bool) : ObsRel (.bool b) (.bool b)
   | int (n : Int) : ObsRel (.int n) (.int n)
   | elems {l : List α} {a : FSet α} : FSet.Equiv l a → ObsRel (.elems l) (.elems a)
+  | found {x : α} {c : FSet α} : x ∈ c → ObsRel (.opt (some x)) (.anyOf c)
+  | notFound : ObsRel (.opt none) (.anyOf [])
+  | elems2 {l₁ l₂ : List α} {a₁ a₂ : FSet α} : FSet.Equiv l₁ a₁ → FSet.Equiv l₂ a₂ →
+      ObsRel (.elems2 l₁ l₂) (.elems2 a₁ a₂)
   | bad : ObsRel .bad .bad
 
 theorem RegRel.equiv {s : MSet α} {a : FSet α} (h : RegRel s a) : FSet.Equiv s.members a :=
@@ -352,6 +361,95 @@ theorem stepOp_refines {sh : Shuffle σ} (hsh : ShLaw sh) {A : List (FSet α)} (
         · have hd' : ¬ d < A.length := fun h' => hd ((h.lt_iff d).2 h')
           simp only [hd, hd', ↓reduceIte]
           exact ⟨_, _, rfl, h, .bad⟩
+  | anyMatch i p =>
+    simp only [stepOp, Op.abs, sstep]
+    cases hi : st.1[i]? with
+    | none => rw [h.get_none hi]; exact ⟨_, _, rfl, h, .bad⟩
+    | some s =>
+      obtain ⟨a, ha, hw, hnd, hm⟩ := h.get hi
+      rw [ha]
+      have : s.anyMatch p = a.any p := by
+        rw [Bool.eq_iff_iff]
+        simp only [MSet.anyMatch, List.any_eq_true]
+        exact ⟨fun ⟨x, hx, hp⟩ => ⟨x, (hm x).1 hx, hp⟩, fun ⟨x, hx, hp⟩ => ⟨x, (hm x).2 hx, hp⟩⟩
+      dsimp only
+      rw [this]
+      exact ⟨_, _, rfl, h, .bool _⟩
+  | allMatch i p =>
+    simp only [stepOp, Op.abs, sstep]
+    cases hi : st.1[i]? with
+    | none => rw [h.get_none hi]; exact ⟨_, _, rfl, h, .bad⟩
+    | some s =>
+      obtain ⟨a, ha, hw, hnd, hm⟩ := h.get hi
+      rw [ha]
+      have : s.allMatch p = a.all p := by
+        rw [Bool.eq_iff_iff]
+        simp only [MSet.allMatch, List.all_eq_true]
+        exact ⟨fun hall x hx => hall x ((hm x).2 hx), fun hall x hx => hall x ((hm x).1 hx)⟩
+      dsimp only
+      rw [this]
+      exact ⟨_, _, rfl, h, .bool _⟩
+  | firstMatch i p =>
+    simp only [stepOp, Op.abs, sstep]
+    cases hi : st.1[i]? with
+    | none => rw [h.get_none hi]; exact ⟨_, _, rfl, h, .bad⟩
+    | some s =>
+      obtain ⟨a, ha, hw, hnd, hm⟩ := h.get hi
+      rw [ha]
+      dsimp only
+      cases hf : s.firstMatch p with
+      | none =>
+        have hnone : a.filter p = [] := by
+          rw [List.filter_eq_nil_iff]
+          intro x hx
+          simp only [MSet.firstMatch, List.find?_eq_none] at hf
+          exact hf x ((hm x).2 hx)
+        rw [hnone]
+        exact ⟨_, _, rfl, h, .notFound⟩
+      | some x =>
+        simp only [MSet.firstMatch] at hf
+        have hx := List.mem_of_find?_eq_some hf
+        have hp := List.find?_some hf
+        exact ⟨_, _, rfl, h, .found (List.mem_filter.2 ⟨(hm x).1 hx, hp⟩)⟩
+  | select d i p =>
+    simp only [stepOp, Op.abs, sstep]
+    cases hi : st.1[i]? with
+    | none => rw [h.get_none hi]; exact ⟨_, _, rfl, h, .bad⟩
+    | some s =>
+      obtain ⟨a, ha, hw, hnd, hm⟩ := h.get hi
+      rw [ha]
+      by_cases hd : d < st.1.length
+      · simp only [hd, (h.lt_iff d).1 hd, ↓reduceIte]
+        obtain ⟨t, u, _, h₃, hwt, _, _, _, hmt, _⟩ := MSet.partitionMatch_spec0 hw p
+        have hrel : RegRel t (a.filter p) :=
+          ⟨hwt, List.Pairwise.sublist List.filter_sublist hnd, fun x => by rw [hmt x, List.mem_filter, hm x]⟩
+        simp only [h₃, ok_bind, pure_eq_ok]
+        exact ⟨_, _, rfl, h.set hrel, .elems hrel.equiv⟩
+      · have hd' : ¬ d < A.length := fun h' => hd ((h.lt_iff d).2 h')
+        simp only [hd, hd', ↓reduceIte]
+        exact ⟨_, _, rfl, h, .bad⟩
+  | partitionM d e i p =>
+    simp only [stepOp, Op.abs, sstep]
+    cases hi : st.1[i]? with
+    | none => rw [h.get_none hi]; exact ⟨_, _, rfl, h, .bad⟩
+    | some s =>
+      obtain ⟨a, ha, hw, hnd, hm⟩ := h.get hi
+      rw [ha]
+      by_cases hd : d < st.1.length ∧ e < st.1.length
+      · have hd' : d < A.length ∧ e < A.length := ⟨(h.lt_iff d).1 hd.1, (h.lt_iff e).1 hd.2⟩
+        simp only [hd, hd', and_self, ↓reduceIte]
+        obtain ⟨t, u, h₃, _, hwt, hwu, _, _, hmt, hmu, _⟩ := MSet.partitionMatch_spec0 hw p
+        have hrelt : RegRel t (a.filter p) :=
+          ⟨hwt, List.Pairwise.sublist List.filter_sublist hnd, fun x => by rw [hmt x, List.mem_filter, hm x]⟩
+        have hrelu : RegRel u (a.filter (fun x => !p x)) :=
+          ⟨hwu, List.Pairwise.sublist List.filter_sublist hnd, fun x => by
+            rw [hmu x, List.mem_filter, hm x]; simp⟩
+        simp only [h₃, ok_bind, pure_eq_ok]
+        exact ⟨_, _, rfl, (h.set hrelt).set hrelu, .elems2 hrelt.equiv hrelu.equiv⟩
+      · have hd' : ¬ (d < A.length ∧ e < A.length) :=
+          fun h' => hd ⟨(h.lt_iff d).2 h'.1, (h.lt_iff e).2 h'.2⟩
+        simp only [hd, hd', ↓reduceIte]
+        exact ⟨_, _, rfl, h, .bad⟩
 
 /-- pointwise agreement of two observation lists -/
 inductive TraceRel : List (Obs α) → List (SObs α) → Prop
